@@ -102,7 +102,9 @@ class ParCons(RankAggAlgorithm, PairwiseBasedAlgorithm):
             # the exact algorithm or a heuristics
             else:
                 # creation of a new Dataset representing the sub-problem
-                sub_problem = dataset.sub_problem_from_elements(set_current_elements)
+                # the rankings containing no element of the sub-problem are kept (as empty rankings): they still
+                # contribute to the cost of each pair of elements of the sub-problem
+                sub_problem = dataset.sub_problem_from_elements(set_current_elements, keep_empty_rankings=True)
                 if len(scc_i) > self._bound_for_exact:
                     cons_ext = self._auxiliary_alg.compute_consensus_rankings(
                         sub_problem, scoring_scheme, True).consensus_rankings[0]
